@@ -48,7 +48,7 @@ Proof.
     unfold gen_expv, gen_expv_gac, gen_expv_sac, gen_expv_pad; cbn [sq_iter];
     match goal with |- context [expv_pre ?j ?s] => rewrite (pmap2_scale _ (expv_pre j s)) by (intro f; exact (P j s f ltac:(lia))) end;
     destruct ac, inverse; reflexivity |]).
-  lia.
+  clear P. lia.
 Qed.
 Theorem gen_expv3_is_model ac inverse k scale flow : (k <= 8)%nat ->
   gen_expv pmap3 (compose3g floorK) ac inverse k scale flow = expv3 floorK ac scale inverse k flow.
@@ -59,7 +59,7 @@ Proof.
     unfold gen_expv, gen_expv_gac, gen_expv_sac, gen_expv_pad; cbn [sq_iter];
     match goal with |- context [expv_pre ?j ?s] => rewrite (pmap3_scale _ (expv_pre j s)) by (intro f; exact (P j s f ltac:(lia))) end;
     destruct ac, inverse; reflexivity |]).
-  lia.
+  clear P. lia.
 Qed.
 
 Theorem gen_compose2_is_model ac u v : gen_compose_flows (compose2g floorK) ac u v = compose2 floorK ac u v.
